@@ -6,7 +6,7 @@ from .. import gen, impl, oracle, ser, stream
 
 ID = "C04"
 LEVEL = "proof"
-PROPS_MODULE = "SymmModel.Props.C04All8"
+PROPS_MODULE = "SymmModel.Props.C04All9"
 THEOREMS = [
     "SymmModel.C04.permuted_compose",
     "SymmModel.C04.compose_isPerm",
@@ -98,10 +98,21 @@ THEOREMS = [
     "SymmModel.C06.tdotF_assoc_any_mode_distinct",
     "SymmModel.C06.tdotF_assoc_any_mode_stored",
     "SymmModel.C06.chain_bracketing_any_mode",
-    "SymmModel.C06.chain_bracketings_agree_any_mode"
+    "SymmModel.C06.chain_bracketings_agree_any_mode",
+    "SymmModel.C04.chain_swapped_bracketing",
+    "SymmModel.C04.chain_swapped_dense",
+    "SymmModel.C04.tdotF_swap_eqv",
+    "SymmModel.C04.tdotF_pretranspose_weak",
+    "SymmModel.C04.netLabelsB_two",
+    "SymmModel.C04.resolveScan_order_type",
+    "SymmModel.C04.netLabelsB_order_type",
+    "SymmModel.C04.compS_def",
+    "SymmModel.C04.rotB_def",
+    "SymmModel.C04.ftree_defs",
+    "SymmModel.C04.emb_def"
 ]
-LEAN_FILES = ["SymmModel.Props.C04", "SymmModel.Proofs.Oddpos", "SymmModel.Proofs.Koszul", "SymmModel.Props.C04b", "SymmModel.Props.C04All", "SymmModel.Proofs.Routes", "SymmModel.Proofs.Routes2", "SymmModel.Proofs.Routes3", "SymmModel.Proofs.Routes4", "SymmModel.Props.C04c", "SymmModel.Props.C04All2", "SymmModel.Proofs.AssocWeak", "SymmModel.Proofs.AssocGeom", "SymmModel.Proofs.AssocSum", "SymmModel.Proofs.AssocFrame", "SymmModel.Proofs.AssocLeft", "SymmModel.Proofs.AssocRight", "SymmModel.Proofs.AssocIdx", "SymmModel.Proofs.AssocMain", "SymmModel.Props.C04d", "SymmModel.Props.C04All3", "SymmModel.Proofs.Assoc2Geom", "SymmModel.Proofs.Assoc2Sum", "SymmModel.Proofs.Assoc2Left", "SymmModel.Proofs.Assoc2Right", "SymmModel.Proofs.Assoc2Main", "SymmModel.Props.C06c", "SymmModel.Props.C04All4", "SymmModel.Props.C04e", "SymmModel.Props.C04All5", "SymmModel.Proofs.Assoc3Valid", "SymmModel.Proofs.Assoc3Frame", "SymmModel.Proofs.Assoc3Left", "SymmModel.Proofs.Assoc3Right", "SymmModel.Proofs.Assoc3Main", "SymmModel.Proofs.Assoc3Eqv", "SymmModel.Proofs.Assoc3Chain", "SymmModel.Proofs.Assoc3Seg", "SymmModel.Props.C04f", "SymmModel.Props.C04All6", "SymmModel.Proofs.Assoc4Seg", "SymmModel.Proofs.Assoc4Tree", "SymmModel.Proofs.Assoc4Swap", "SymmModel.Props.C06d", "SymmModel.Props.C04All7", "SymmModel.Props.C06e", "SymmModel.Props.C04All8"]
-PLANNED = ["operand swap at inner nodes of a bracketing (root proved)", "LabelRoutes for fully paired label lists with k >= 2", "general network graphs beyond chains and triangles"]
+LEAN_FILES = ["SymmModel.Props.C04", "SymmModel.Proofs.Oddpos", "SymmModel.Proofs.Koszul", "SymmModel.Props.C04b", "SymmModel.Props.C04All", "SymmModel.Proofs.Routes", "SymmModel.Proofs.Routes2", "SymmModel.Proofs.Routes3", "SymmModel.Proofs.Routes4", "SymmModel.Props.C04c", "SymmModel.Props.C04All2", "SymmModel.Proofs.AssocWeak", "SymmModel.Proofs.AssocGeom", "SymmModel.Proofs.AssocSum", "SymmModel.Proofs.AssocFrame", "SymmModel.Proofs.AssocLeft", "SymmModel.Proofs.AssocRight", "SymmModel.Proofs.AssocIdx", "SymmModel.Proofs.AssocMain", "SymmModel.Props.C04d", "SymmModel.Props.C04All3", "SymmModel.Proofs.Assoc2Geom", "SymmModel.Proofs.Assoc2Sum", "SymmModel.Proofs.Assoc2Left", "SymmModel.Proofs.Assoc2Right", "SymmModel.Proofs.Assoc2Main", "SymmModel.Props.C06c", "SymmModel.Props.C04All4", "SymmModel.Props.C04e", "SymmModel.Props.C04All5", "SymmModel.Proofs.Assoc3Valid", "SymmModel.Proofs.Assoc3Frame", "SymmModel.Proofs.Assoc3Left", "SymmModel.Proofs.Assoc3Right", "SymmModel.Proofs.Assoc3Main", "SymmModel.Proofs.Assoc3Eqv", "SymmModel.Proofs.Assoc3Chain", "SymmModel.Proofs.Assoc3Seg", "SymmModel.Props.C04f", "SymmModel.Props.C04All6", "SymmModel.Proofs.Assoc4Seg", "SymmModel.Proofs.Assoc4Tree", "SymmModel.Proofs.Assoc4Swap", "SymmModel.Props.C06d", "SymmModel.Props.C04All7", "SymmModel.Props.C06e", "SymmModel.Props.C04All8", "SymmModel.Props.C04g", "SymmModel.Props.C04All9", "SymmModel.Proofs.Assoc5Pre", "SymmModel.Proofs.Assoc5Swap", "SymmModel.Proofs.Assoc5Tree", "SymmModel.Proofs.Assoc5Labels", "SymmModel.Proofs.Assoc5Two"]
+PLANNED = ["label routes for fully paired label lists with more than two labels per tensor (<= 2 proved symbolically)", "general network graphs beyond chains and triangles"]
 RULE = ("random networks of 2-4 fermionic tensors (chains, triangles, stars; with and without dangling legs), all "
         "symmetries, random bond orientations, every mix of even/odd charges with distinct labels, sparse, pending "
         "signs; 4 random routes per network differing in contraction order, operand order, axis listing order, "
